@@ -260,7 +260,7 @@ def shape_configs(tier, strategies, sym_x_max_m, max_m, ns, adaptive_max_m=None)
                 continue
             for n in ns:
                 # adaptive strategies fork ~(a+3) ways per interval: keep (intervals x window) within reach
-                if adaptive and ((m >= 5 and n > 3) or (m == 4 and n > 6)):
+                if adaptive and ((m >= 5 and n > 2) or (m == 4 and n > 4)):
                     continue
                 grids = []
                 if m <= (sym_x_max_m if not adaptive else min(sym_x_max_m, 3)):
